@@ -634,7 +634,14 @@ func (e *engine) prepare(op Op) (*prepared, error) {
 			if op.K == nil {
 				return nil, errSkip
 			}
-			p.real = func() (starlark.Value, error) { return e.call(helpers["getkey"], tgt.real.(starlark.Value), rk) }
+			p.real = func() (starlark.Value, error) {
+				// the value by key, or (Star) out of a dict made from the map field's items
+				h := "getkey"
+				if op.Star {
+					h = []string{"itemsget", "itemsget2", "updget"}[(op.I+3)%3]
+				}
+				return e.call(helpers[h], tgt.real.(starlark.Value), rk)
+			}
 			p.storeFD, p.storeKey = tgt.fd, true // the key goes through the same conversion as in an assignment
 			var want mElem
 			p.model = func(w *world, c *mctx) (*handle, error) {
